@@ -367,8 +367,12 @@ fn delta_for_tx(
             }
         }
         crate::portfolio::TxActionSpecifics::Split(split_specs) => {
-            new_share_balance = pre_tx_status.share_balance
-                * split_specs.ratio.pre_to_post_factor().into();
+            // Multiply before dividing. Going through the pre-computed factor
+            // (post / pre) would round it first (1/3 = 0.333...), and an exact
+            // result like 3 * 1 / 3 would come out as 0.999...
+            new_share_balance = (pre_tx_status.share_balance
+                * split_specs.ratio.post_split.into())
+            .div(split_specs.ratio.pre_split);
             let share_diff = *new_share_balance - *pre_tx_status.share_balance;
             // This erroring would be strange in practice. Only if the share balance
             // was already broken.
